@@ -282,3 +282,46 @@ func H_A4_VestOntoExistingEntries() {
 	c3 := env.Comm.GetCommitments(ctx2, alice)
 	vrf.Assert(env.W.BalOf(alice, ptypes.Elys).Add(unreleased(c3)).Equal(before.Add(amt)), "A4: after the next claim, tokens released + Eden still scheduled == Eden put into vesting")
 }
+
+// A6: the configured factor and schedule length are the ones in force: after governance updates the vesting
+// parameters, vest-now pays amount / the NEW factor and a new vesting runs over the NEW number of blocks.
+//
+//vrf:cover updated vestnow-ok vest-ok
+//vrf:bound Eden vesting info with symbolic old and new factor / schedule length in [1, 2^40]; governance MsgUpdateVestingInfo, then a vest-now and a vest of symbolic amounts
+func H_A6_GovernanceUpdateThenVest() {
+	h := vrf.I64("height", 1, maxH)
+	env := newEnv(h)
+	ctx := env.Ctx
+	p := ctypes.DefaultParams()
+	p.EnableVestNow = true
+	f0, n0 := vrf.I64("oldFactor", 1, maxH), vrf.I64("oldNumBlocks", 1, maxH)
+	p.VestingInfos[0].VestNowFactor = sdkmath.NewInt(f0)
+	p.VestingInfos[0].NumBlocks = n0
+	env.Comm.SetParams(ctx, p)
+	f1, n1 := vrf.I64("newFactor", 1, maxH), vrf.I64("newNumBlocks", 1, maxH)
+	srv := ckeeper.NewMsgServerImpl(*env.Comm)
+	info := p.VestingInfos[0]
+	_, err := srv.UpdateVestingInfo(ctx, &ctypes.MsgUpdateVestingInfo{Authority: wire.Gov, BaseDenom: info.BaseDenom, VestingDenom: info.VestingDenom,
+		NumBlocks: n1, VestNowFactor: f1, NumMaxVestings: info.NumMaxVestings})
+	if err != nil {
+		return
+	}
+	vrf.Cover("updated")
+	eden0, a1, a2 := vrf.Int("claimedEden"), vrf.Int("vestNowAmount"), vrf.Int("vestAmount")
+	vrf.Assume(a1.IsPositive())
+	vrf.Assume(a2.IsPositive())
+	vrf.Assume(eden0.GTE(a1.Add(a2)))
+	c := env.Comm.GetCommitments(ctx, alice)
+	c.AddClaimed(sdk.NewCoin(ptypes.Eden, eden0))
+	env.Comm.SetCommitments(ctx, c)
+	if _, err := srv.VestNow(ctx, &ctypes.MsgVestNow{Creator: alice.String(), Denom: ptypes.Eden, Amount: a1}); err == nil {
+		vrf.Cover("vestnow-ok")
+		got := env.W.BalOf(alice, ptypes.Elys)
+		vrf.Assert(got.Mul(sdkmath.NewInt(f1)).LTE(a1) && got.AddRaw(1).Mul(sdkmath.NewInt(f1)).GT(a1), "A6: vest-now pays amount / the factor currently configured (after a governance update: the new one)")
+	}
+	if _, err := srv.Vest(ctx, &ctypes.MsgVest{Creator: alice.String(), Denom: ptypes.Eden, Amount: a2}); err == nil {
+		vrf.Cover("vest-ok")
+		c2 := env.Comm.GetCommitments(ctx, alice)
+		vrf.Assert(len(c2.VestingTokens) == 1 && c2.VestingTokens[0].NumBlocks == n1, "A6: a new vesting runs over the number of blocks currently configured (after a governance update: the new one)")
+	}
+}
